@@ -12,7 +12,7 @@ PID = "C04"
 LEAN_MODULE = "NiVerif.Props.C04"
 NAMESPACE = "Props.C04"
 DRIVER = "drivers/C04.lean"
-GEN_MODULES = ["TimeValueTuple", "TimeDelta", "DateTime"]
+GEN_MODULES = ["TimeValueTuple", "TimeDelta", "DateTime", "TimeDeltaFloat"]
 THEOREMS = [
     "bt_to_dt_floor", "bt_to_dt_overflow_refused", "bt_to_dt_total", "dt_to_bt_floor", "dt_to_bt_never_overflows",
     "bt_to_ht_floor", "bt_to_ht_total", "ht_to_bt_nearest", "ht_to_bt_never_overflows",
@@ -22,6 +22,7 @@ THEOREMS = [
     "ht_to_dt_monotone", "ht_to_bt_monotone", "td_of_int_exact",
     "btdt_to_dt_floor", "dt_to_btdt_floor", "btdt_to_ht_floor", "ht_to_btdt_nearest", "btdt_ht_btdt",
     "dt_ht_dt_abs", "ht_to_dt_abs_trunc", "ht_to_dt_abs_in_range", "tz_rules",
+    "round_error", "round_int", "to_ticks_float_unfold", "float_to_ticks_nearest", "float_to_ticks_exact",
 ]
 RULE = ("source values of each family from edge lattices (decimal boundaries of a 2^64 fraction ±2, just below whole "
         "seconds, negatives, range edges of datetime/timedelta/hightime) plus seeded random values, through all nine "
@@ -146,7 +147,32 @@ def run(ctx):
                     if r1 > r2:
                         ctx.violation(conv=f"{sk}->{dk}", value=str(s2), observed=f"{r1} > {r2}", required="monotonic")
                         break
-    res = ctx.model([q for q, _, _ in reqs])
+    # translation validation of the generated float branch of TimeDelta._to_ticks: the float enters the model as the exact
+    # dyadic value num / 2^exp, the real constructor's tick count must be what the generated definition computes
+    fl = [0.0, -0.0, 1.0, -1.0, 0.5, 1.5, -2.5, 0.1, 1 / 3, 1e-3, 123456.789, 2.0 ** -64, 0.75 * 2.0 ** -64, 0.5 * 2.0 ** -64, 1.5 * 2.0 ** -64,
+          2.5 * 2.0 ** -64, -0.75 * 2.0 ** -64, 2.0 ** -65, 2.0 ** -70 * 3, 5e-324, 2.0 ** 62, -(2.0 ** 62), 1e18, 1 - 2.0 ** -53, 2.0 ** 52 + 0.5]
+    fl += [rng.uniform(-1, 1) * 10.0 ** rng.randint(-25, 18) for _ in range(300 if ctx.quick else 20000)]
+    fl += [(rng.randint(-8, 8) + rng.choice([0.25, 0.5, 0.75])) * 2.0 ** -64 * rng.choice([1, 2.0 ** -3, 2.0 ** 10]) for _ in range(100 if ctx.quick else 5000)]
+    fextra = []
+    for x in fl:
+        o = outcome(lambda: bt.TimeDelta(x).ticks)
+        if o[0] != "ok":
+            continue
+        n, d = x.as_integer_ratio()
+        e = d.bit_length() - 1
+        exact = Fraction(x) * T64
+        if abs(Fraction(o[1]) - exact) > Fraction(1, 2) or (e <= 64 and Fraction(o[1]) != exact):
+            ctx.violation(conv="TimeDelta(float seconds)", value=repr(x), observed=o[1],
+                          required="nearest tick (error <= 1/2; exact for floats with at most 64 fractional bits)")
+        fextra.append((f"gen TimeDeltaFloat.to_ticks_float {n} {e}", "ok " + str(o[1]) if False else str(o[1])))
+        ctx.count("float_seconds", "exact" if e <= 64 else "rounded")
+    res = ctx.model([q for q, _, _ in reqs] + [q for q, _ in fextra])
+    if res is not None:
+        for (q, want), got in zip(fextra, res[len(reqs):]):
+            if got.strip() != want:
+                ctx.mismatch(stream="translation-validation float", request=q, model_says=got, code_says=want)
+                break
+        res = res[:len(reqs)]
     if res is not None:
         for (q, want, dk), got in zip(reqs, res):
             g = norm_model(got)
